@@ -8,12 +8,12 @@ from ref import rfc9171
 ID = 'C19'
 LEVEL = 'exploration'
 RULE = ('per case 1-4 received bundles, each with one of the 2^5 combinations of report-request flags (reception, forwarding, delivery, '
-        'deletion, status time), report-to in {dtn:none, another endpoint} and an outcome in {deliver, forward, forward with fragmentation, forward over a route whose MTU nothing fits, '
+        'deletion, status time), report-to in {dtn:none, another endpoint} and an outcome in {deliver, forward, forward with fragmentation, forward over a route whose MTU nothing fits, forward over a convergence layer that raises on send, '
         'delete by route, no route, security failure (BIB with a key the node lacks), duplicate}; administrative bundles leaving the node '
         'are decoded by the reference decoder and matched to their subject. Non-trivial: at least one report flag set with a report-to '
         'endpoint; distinct = digest of the case descriptors.')
 COMPONENTS = bc.COMPONENTS
-PROBES = ('out.deliver', 'out.forward', 'out.forward-frag', 'out.forward-impossible', 'out.delete', 'out.noroute', 'out.secfail', 'out.duplicate', 'rpt.seen', 'rpt.with_time',
+PROBES = ('out.deliver', 'out.forward', 'out.forward-frag', 'out.forward-impossible', 'out.forward-cl-error', 'out.delete', 'out.noroute', 'out.secfail', 'out.duplicate', 'rpt.seen', 'rpt.with_time',
           'probe.requested_but_missing')
 ASSUMPTIONS = ['a transmit route towards the report-to endpoint always exists', 'the statement is read as "only if": a missing report is counted as a probe, not a violation']
 CHUNK = 25
@@ -26,12 +26,13 @@ OCCURS = {
     'forward': {'received', 'forwarded'},
     'forward-frag': {'received', 'forwarded'},
     'forward-impossible': {'received', 'deleted'},
+    'forward-cl-error': {'received', 'deleted'},
     'delete': {'received', 'deleted'},
     'noroute': {'received'},
     'secfail': {'received', 'deleted'},
     'duplicate': set(),
 }
-DEST = {'deliver': 'dtn://n1/app', 'forward': 'dtn://far/app', 'forward-frag': 'dtn://mtu/app', 'forward-impossible': 'dtn://tiny/app', 'delete': 'dtn://drop/app', 'noroute': 'dtn://nowhere/app',
+DEST = {'deliver': 'dtn://n1/app', 'forward': 'dtn://far/app', 'forward-frag': 'dtn://mtu/app', 'forward-impossible': 'dtn://tiny/app', 'forward-cl-error': 'dtn://broken/app', 'delete': 'dtn://drop/app', 'noroute': 'dtn://nowhere/app',
         'secfail': 'dtn://n1/app', 'duplicate': 'dtn://n1/app'}
 
 
@@ -42,7 +43,7 @@ def gen(ch, tier):
         for bit in (rfc9171.FLAG_RPT_RECEPTION, rfc9171.FLAG_RPT_FORWARD, rfc9171.FLAG_RPT_DELIVERY, rfc9171.FLAG_RPT_DELETION, rfc9171.FLAG_STATUS_TIME):
             if ch.coin('flag', 1, 2):
                 flags |= bit
-        cases.append(dict(outcome=ch.choice('outcome', ('deliver', 'forward', 'forward-frag', 'forward-impossible', 'delete', 'noroute', 'secfail', 'duplicate')),
+        cases.append(dict(outcome=ch.choice('outcome', ('deliver', 'forward', 'forward-frag', 'forward-impossible', 'forward-cl-error', 'delete', 'noroute', 'secfail', 'duplicate')),
                           flags=flags, report_to=ch.choice('rpt', ('dtn://rpt/', 'dtn://rpt/', 'dtn:none', 'ipn:9.1')),
                           source=ch.choice('src', ('dtn://src/', 'ipn:3.1')), seqno=cix, plen=ch.choice('plen', (5, 40, 400)), tag=cix + 1,
                           crc=ch.choice('crc', (1, 2))))
@@ -67,8 +68,8 @@ class Run:
 
 def execute(plan, sched, verbose=False):
     nodes = {'n1': dict(node_id='dtn://n1/',
-                        rx_routes=[['^dtn://n1/.*$', 'deliver'], ['^dtn://far/.*$', 'forward'], ['^dtn://mtu/.*$', 'forward'], ['^dtn://tiny/.*$', 'forward'], ['^dtn://drop/.*$', 'delete']],
-                        tx_routes=[['^dtn://mtu/.*$', 'dtn://next/', 300, None], ['^dtn://tiny/.*$', 'dtn://next/', 30, None], ['.*', 'dtn://next/', None, None]])}
+                        rx_routes=[['^dtn://n1/.*$', 'deliver'], ['^dtn://far/.*$', 'forward'], ['^dtn://mtu/.*$', 'forward'], ['^dtn://tiny/.*$', 'forward'], ['^dtn://broken/.*$', 'forward'], ['^dtn://drop/.*$', 'delete']],
+                        tx_routes=[['^dtn://mtu/.*$', 'dtn://next/', 300, None], ['^dtn://tiny/.*$', 'dtn://next/', 30, None], ['^dtn://broken/.*$', 'dtn://dead/', None, 'FAIL'], ['.*', 'dtn://next/', None, None]])}
     har = bp_net.BpHarness(dict(nodes=nodes), sched, verbose)
     run = Run()
     run.har = har
@@ -110,6 +111,9 @@ def _drive(run, plan, har):
         allowed = requested & occurred if case['report_to'] != 'dtn:none' else set()
         if case['outcome'] == 'forward-impossible' and others:
             run.viols.append(('setup', 'impossible-forward-sent', '%s: something left the node although nothing fits the 30-octet MTU' % where))
+            return
+        if case['outcome'] == 'forward-cl-error' and others:
+            run.viols.append(('setup', 'failed-forward-sent', '%s: something left the node although the convergence layer refused it' % where))
             return
         if case['outcome'] in ('forward', 'forward-frag') and not others:
             run.viols.append(('setup', 'not-forwarded', '%s: the bundle did not leave the node at all (recv error %s, actions %s)' % (where, rec['error'], rec['actions'])))
